@@ -250,11 +250,14 @@ class SubQueryLineageHolder(ColumnLineageMixin):
             self.graph.add_edge(tgt_table, new_column, type=EdgeType.HAS_COLUMN)
             self.graph.add_edge(src_col.parent, src_col, type=EdgeType.HAS_COLUMN)
             self.graph.add_edge(src_col, new_column, type=EdgeType.LINEAGE)
-        # remove wildcard
-        if self.graph.has_node(tgt_wildcard):
-            self.graph.remove_node(tgt_wildcard)
+        # remove the expanded wildcard; the target wildcard stays as long as another relation's wildcard,
+        # one that could not be expanded, still feeds it
         if self.graph.has_node(src_wildcard):
             self.graph.remove_node(src_wildcard)
+        if self.graph.has_node(tgt_wildcard) and not self.get_source_columns(
+            tgt_wildcard
+        ):
+            self.graph.remove_node(tgt_wildcard)
 
 
 class StatementLineageHolder(SubQueryLineageHolder, ColumnLineageMixin):
